@@ -34,5 +34,9 @@ Definition rr_case_ok (c : arr Q * list Q * arr Q) : bool :=
   list_eqb Qeq_bool (ravel x) flat && arrq_eqb (reshape flat (ashape x)) back && arrq_eqb back x
   && Nat.eqb (length flat) (prod (ashape x)).
 
+(** interval tuples (bracket / bounds) of minimize_scalar: what the caller passed vs what
+    scipy.optimize.minimize_scalar received -- same arity, same numbers *)
+Definition tuple_case_ok (c : list Q * list Q) : bool := list_eqb Qeq_bool (fst c) (snd c).
+
 Fixpoint bad_idx {A} (f : A -> bool) (l : list A) (i : nat) : list nat :=
   match l with [] => [] | x :: r => if f x then bad_idx f r (S i) else i :: bad_idx f r (S i) end.
